@@ -57,6 +57,8 @@ type containCase struct {
 	ViaX  bool     `json:"via_txtar_x"`
 	// NoDir: the target directory does not exist yet (Write creates it)
 	NoDir bool `json:"no_dir,omitempty"`
+	// Deep: neither the target directory nor its parent exist yet
+	Deep bool `json:"deep,omitempty"`
 }
 
 const depth = "l1/l2/l3/l4/l5/parent"
@@ -73,7 +75,13 @@ func checkContain(root string, c containCase) string {
 	os.RemoveAll(root)
 	parent := filepath.Join(root, depth)
 	dir := filepath.Join(parent, "dir")
-	if c.NoDir {
+	dirRel := filepath.Join(depth, "dir")
+	if c.Deep {
+		// neither the target directory nor its parent exist yet
+		dir = filepath.Join(parent, "nx", "dir")
+		dirRel = filepath.Join(depth, "nx", "dir")
+	}
+	if c.NoDir || c.Deep {
 		os.MkdirAll(parent, 0o777)
 	} else {
 		os.MkdirAll(dir, 0o777)
@@ -131,7 +139,6 @@ func checkContain(root string, c containCase) string {
 		}
 	}
 	after := takeSnap(root)
-	dirRel := filepath.Join(depth, "dir")
 	var afterPaths []string
 	for p := range after {
 		afterPaths = append(afterPaths, p)
@@ -141,6 +148,9 @@ func checkContain(root string, c containCase) string {
 		v := after[p]
 		inside := p == dirRel || strings.HasPrefix(p, dirRel+"/")
 		b, existed := before[p]
+		if c.Deep && p == filepath.Join(depth, "nx") && v == "d" {
+			continue // the missing parent of the target, made as a directory on the way
+		}
 		if !inside && (!existed || b != v) {
 			return fmt.Sprintf("escape: %q outside the target directory was created or changed (err=%v)", p, err)
 		}
@@ -416,7 +426,7 @@ func main() {
 		}
 		if c.Kind == "contain" {
 			if v := checkContain(d, *c.Contain); v != "" {
-				return []kit.V{{Key: fmt.Sprintf("%s names=%q pre=%q viaX=%v nodir=%v", violClass(v), c.Contain.Names, c.Contain.Pre, c.Contain.ViaX, c.Contain.NoDir), What: v, Case: c}}
+				return []kit.V{{Key: fmt.Sprintf("%s names=%q pre=%q viaX=%v nodir=%v deep=%v", violClass(v), c.Contain.Names, c.Contain.Pre, c.Contain.ViaX, c.Contain.NoDir, c.Contain.Deep), What: v, Case: c}}
 			}
 			return nil
 		}
@@ -449,6 +459,10 @@ func main() {
 	// entry that creates it
 	for _, n := range names {
 		cases = append(cases, containCase{Names: []string{n}, NoDir: true}, containCase{Names: []string{"b", n}, NoDir: true})
+		cases = append(cases, containCase{Names: []string{n}, Deep: true}, containCase{Names: []string{"b", n}, Deep: true})
+		if strings.TrimSpace(n) == n && n != "" {
+			cases = append(cases, containCase{Names: []string{n}, Deep: true, ViaX: true})
+		}
 		if strings.TrimSpace(n) == n && n != "" {
 			cases = append(cases, containCase{Names: []string{n}, NoDir: true, ViaX: true})
 		}
@@ -496,7 +510,7 @@ func main() {
 		d := filepath.Join(root, fmt.Sprintf("cw%d", w))
 		if v := checkContain(d, c); v != "" {
 			cc := c
-			r.Violation(fmt.Sprintf("%s names=%q pre=%q viaX=%v nodir=%v", violClass(v), c.Names, c.Pre, c.ViaX, c.NoDir), fmt.Sprintf("entries %q into a directory holding %q (via txtar-x: %v): %s", c.Names, c.Pre, c.ViaX, v), kase{Kind: "contain", Contain: &cc})
+			r.Violation(fmt.Sprintf("%s names=%q pre=%q viaX=%v nodir=%v deep=%v", violClass(v), c.Names, c.Pre, c.ViaX, c.NoDir, c.Deep), fmt.Sprintf("entries %q into a directory holding %q (via txtar-x: %v; target missing: %v, its parent too: %v): %s", c.Names, c.Pre, c.ViaX, c.NoDir || c.Deep, c.Deep, v), kase{Kind: "contain", Contain: &cc})
 		}
 		atomic.AddInt64(&done, 1)
 		for _, n := range c.Names {
